@@ -875,6 +875,12 @@ func (module *InMemoryStorage) fetchConsumer(request *protocol.StorageRequest, r
 		}
 
 		for p, partition := range partitions {
+			if p >= len(topicMap) {
+				// The consumer knows more partitions than the brokers currently report (the topic was deleted and
+				// re-created with fewer partitions while an offset commit was in flight): no broker data to add
+				continue
+			}
+
 			// Build the slice of broker offsets to return
 			partition.BrokerOffsets = make([]int64, 0, module.intervals)
 			brokerOffsetPtr := topicMap[p].Next()
@@ -884,7 +890,7 @@ func (module *InMemoryStorage) fetchConsumer(request *protocol.StorageRequest, r
 				}
 			})
 
-			if len(partition.Offsets) > 0 {
+			if len(partition.Offsets) > 0 && len(partition.BrokerOffsets) > 0 {
 				brokerOffset := partition.BrokerOffsets[len(partition.BrokerOffsets)-1]
 				lastOffset := partition.Offsets[len(partition.Offsets)-1]
 				if lastOffset != nil {
